@@ -34,6 +34,55 @@ def run_scenarios(ctx, n, check):
     return run
 
 
+def targeted(r):
+    """sibling assets on one host where only the text-based filters tell them apart, in both orders; a last regex in a file
+    without trailing newline; scheme-relative references to forbidden hosts"""
+    base = {"includeHosts": [], "includeStrings": [], "excludeHosts": list(stage.DEFAULT_EXCLUDED), "excludeStrings": [], "regexes": [],
+            "disableAssets": False, "maxHops": 0, "maxRedirect": 3, "disableSeencheck": False, "domainsCrawl": [], "exclusionFileTrailingNewline": True}
+    good = ["/img/ok1.png", "/img/ok2.png", "http://cdn.example/ok.js"]
+    out = []
+    for filt, bad in ((dict(excludeStrings=["private"]), ["/private/s.png", "http://cdn.example/private.js"]),
+                      (dict(regexes=[r"\.zip$"]), ["/files/big.zip", "http://cdn.example/x.zip"]),
+                      (dict(regexes=[r"/never/", r"\.zip$"], exclusionFileTrailingNewline=False), ["/files/big.zip"]),
+                      (dict(regexes=[r"\.zip$"], exclusionFileTrailingNewline=False), ["/files/big.zip", "http://cdn.example/x.zip"]),
+                      (dict(includeStrings=["/img/", "cdn.example/ok"]), ["/other/o.png", "http://cdn.example/no.js"]),
+                      (dict(excludeHosts=list(stage.DEFAULT_EXCLUDED) + ["cdn.example"]), ["http://cdn.example/x.js", "//cdn.example/y.js"]),
+                      (dict(), ["//localhost/a.png", "//127.0.0.1:8080/b.png", "//intranet/c.png", "//archive.org/d.png", "//web.archive-it.org/e.png"])):
+        for order in range(3):
+            assets = good + bad
+            r.shuffle(assets)
+            if order == 0:
+                assets = good + bad
+            elif order == 1:
+                assets = bad + good
+            site = stage.Site()
+            site.add("http://site.example/", assets=assets)
+            for a in assets:
+                site.add(a if a.startswith("http") else "http://site.example" + a, ctype="image/png", body="\x89PNG\r\n\x1a\n0000", kind="bin")
+            cfg = dict(base, **filt)
+            if "includeStrings" in filt:
+                cfg["includeStrings"] = filt["includeStrings"] + ["site.example/$"]
+                cfg["includeHosts"] = []
+            out.append((cfg, site, "http://site.example/" if "includeStrings" not in filt else "http://site.example/img/"))
+    return out
+
+
+def run_targeted(ctx, check):
+    h = core.Interactive("stage")
+    run = stage.Run(ctx, h)
+    try:
+        for k, (cfg, site, seed) in enumerate(targeted(ctx.rng)):
+            if seed not in site.pages:
+                site.pages[seed] = site.pages["http://site.example/"]
+            act, tree, trace = stage.run_seed(run, cfg, site, seed, seed_id="t%d" % k, dc_match=stage.dc_matcher(cfg), regex_match=stage.regex_matcher(cfg))
+            check(ctx, cfg, site, seed, act, tree, trace, run, 0)
+            ctx.count("targeted-scenarios")
+    finally:
+        h.send({"op": "close"})
+        h.close()
+    stage.compare(ctx, run, "targeted stage scenarios")
+
+
 def check_scope(ctx, cfg, site, seed, act, tree, trace, run, start):
     rejected = 0
     for p, rq in enumerate(trace["requests"]):
@@ -44,12 +93,13 @@ def check_scope(ctx, cfg, site, seed, act, tree, trace, run, start):
                           {"domain": "stage", "cfg": cfg, "seed": seed, "url": rq["canon"], "reason": why, "site": site.pages})
     # how many URLs of the trees never got a request (rejected / seen / duplicates)
     allnodes = sum(len(list(stage.walk(t))) for t in trace["trees"][-1:])
-    ctx.case(json.dumps([cfg, seed, sorted(site.pages["http://site.example/"]["assets"])]), len(trace["requests"]) >= 1 and allnodes >= 1)
+    ctx.case(json.dumps([cfg, seed, sorted(site.pages.get("http://site.example/", {}).get("assets", []))]), len(trace["requests"]) >= 1 and allnodes >= 1)
     ctx.count("finish:" + str(act))
 
 
 def run(ctx):
     n = 6000 if ctx.thorough() else 150
+    run_targeted(ctx, check_scope)
     run_ = run_scenarios(ctx, n, check_scope)
     ctx.sample({"first_steps": [(json.dumps(op)[:160], out[:160]) for op, out in run_.log[:6]]})
     ctx.assumptions += ["the URL parser (ada / net/url) and the regex engine are oracles: the model receives what they returned in this run",
